@@ -5,6 +5,9 @@ cd "$(dirname "$0")/.."
 one() {
   d="$1"
   id=$(basename $d | sed 's/-.*//')
+  # a seed whose defect belongs to another property (meta.json status "reassigned:<ID>") is run against that property's check
+  re=$(python3 -c "import json,sys; s=str(json.load(open('$d/meta.json')).get('status','')); print(s.split(':')[1] if s.startswith('reassigned:') else '')")
+  [ -n "$re" ] && id=$re
   out=$(tools/mutant.sh $d/patch.diff $id quick 2>&1)
   ex=$(echo "$out" | grep -o 'exit=[0-9]*' | tail -1)
   first=$(echo "$out" | grep '^VIOLATION' | sed 's/.*replays\/[A-Z0-9]*\///; s/\.json.*//' | head -3 | tr '\n' ';')
@@ -13,7 +16,7 @@ import json,sys
 d,ex,first=sys.argv[1:4]
 p=d+'/meta.json'
 m=json.load(open(p))
-m['detected_by']=dict(check='./check %s --tier quick'%m['property'], exit=ex, first_violations=[x for x in first.split(';') if x])
+m['detected_by']=dict(check='./check %s --tier quick'%(str(m.get('status','')).split(':')[1] if str(m.get('status','')).startswith('reassigned:') else m['property']), exit=ex, first_violations=[x for x in first.split(';') if x])
 if not str(m.get('status','')).startswith('neutralised'):
     m['detected']= ex=='exit=1'
 json.dump(m,open(p,'w'),indent=1)
